@@ -437,8 +437,8 @@ class VAMMessage(CooperativeAwarenessMessage):
             Position confidence ellipse value.
         """
         position_confidence_ellipse = {
-            "semiMajorAxisLength": int(epx * 100),
-            "semiMinorAxisLength": int(epy * 100),
+            "semiMajorAxisLength": self.semi_axis_length(epx),
+            "semiMinorAxisLength": self.semi_axis_length(epy),
             "semiMajorAxisOrientation": 0,
         }
 
